@@ -7,7 +7,7 @@ use crate::report::{fnv, par_run, Report};
 use crate::rng::Rng;
 use serde_json::json;
 
-pub const RULE: &str = "For all 22 indicators: (a) every history of depth <= d over {next a, next b, next NaN, next +inf, reset} (scalar and bar forms) for periods 1..=4, followed by reset (single or double) and a finite continuation of 3n+3 fresh inputs fed in lock-step to a newly constructed twin; (a') the same enumeration over {next a, next b, reset, serialize-deserialize-swap, clone-swap} (a reset directly after a restore or clone); (a'') periods up to usize::MAX for the allocation-free indicators; (b) random histories up to thousands of operations mixing ordinary and non-finite/extreme inputs with repeated resets at random cursor positions. Oracle: every continuation output component within 1e-12 relative of the fresh twin's (bit-identity reported), Display/period/multiplier equal before and after reset and equal to the constructor arguments, reset of a fresh instance changes nothing. Non-trivial: history contains at least one next before the reset; distinct by construction (enumeration) or by hash of the op history.";
+pub const RULE: &str = "For all 22 indicators: (a) every history of depth <= d over {next a, next b, next NaN, next +inf, reset} (scalar and bar forms) for periods 1..=4, followed by reset (single or double) and a continuation of 3n+3 fresh inputs (positive, signed, or - one in five - containing NaN and an infinity) fed in lock-step to a newly constructed twin; (a') the same enumeration over {next a, next b, reset, serialize-deserialize-swap, clone-swap} (a reset directly after a restore or clone); (a'') periods up to usize::MAX for the allocation-free indicators; (b) random histories up to thousands of operations mixing ordinary and non-finite/extreme inputs with repeated resets at random cursor positions. Oracle: every continuation output component within 1e-12 relative of the fresh twin's (bit-identity reported), Display/period/multiplier equal before and after reset and equal to the constructor arguments, reset of a fresh instance changes nothing. Non-trivial: history contains at least one next before the reset; distinct by construction (enumeration) or by hash of the op history.";
 
 const REL: f64 = 1e-12;
 
@@ -43,10 +43,25 @@ fn alphabet_lifecycle(bars: bool) -> Vec<Op> {
     a
 }
 
-/// finite continuation, different from anything in the histories. Odd salts give a *signed*
+/// continuation, different from anything in the histories. Odd salts give a *signed*
 /// continuation whose first input is zero or negative (the first comparison an indicator makes after a
 /// reset is against its initial state, e.g. OBV's "previous close" of 0).
 fn continuation(bars: bool, len: usize, salt: u64) -> Vec<Op> {
+    let mut c = continuation_finite(bars, len, salt);
+    // every fifth continuation also carries non-finite inputs ("the same subsequent inputs" is not
+    // restricted to finite ones): a NaN first or third, an infinity later
+    if salt % 5 == 3 {
+        let nf = |v: f64, bars: bool| if bars { Op::NextBar(Bar { o: v, h: v, l: v, c: v, v }) } else { Op::NextF(v) };
+        let at = if salt % 2 == 0 { 0 } else { 2.min(len - 1) };
+        c[at] = nf(f64::NAN, bars);
+        if len > 5 {
+            c[len / 2] = nf(if salt % 3 == 0 { f64::INFINITY } else { f64::NEG_INFINITY }, bars);
+        }
+    }
+    c
+}
+
+fn continuation_finite(bars: bool, len: usize, salt: u64) -> Vec<Op> {
     let signed = salt % 2 == 1;
     if bars {
         let mut g = BarGen::new(BarStyle::Mixed, 1.0, 0xC0FFEE ^ salt);
